@@ -506,9 +506,17 @@ def build_epub(items, spine, files):
                    + "".join(f'<item id="{i}" href="{h}" media-type="{m}"/>' for i, h, m in items) + "</manifest><spine>"
                    + "".join(f'<itemref idref="{i}"/>' for i in spine) + "</spine></package>")
         for n, t in files.items():
-            z.writestr("OEBPS/" + n, f'<html xmlns="http://www.w3.org/1999/xhtml"><head><title>c</title></head><body><p>{_xml(t)}</p></body></html>')
+            # a chapter may END inside an element the extractor removes or tracks (unclosed <object>, <title>, table cell …):
+            # that must stay the chapter's own business — parser state must not leak into the next chapter
+            tail = EPUB_TAILS[sum(map(ord, n + t)) % len(EPUB_TAILS)] if t.endswith("~") else ""
+            t = t.rstrip("~")
+            z.writestr("OEBPS/" + n, f'<html xmlns="http://www.w3.org/1999/xhtml"><head><title>c</title></head><body><p>{_xml(t)}</p>{tail}</body></html>'
+                       if not tail else f'<html xmlns="http://www.w3.org/1999/xhtml"><head><title>c</title></head><body><p>{_xml(t)}</p>{tail}')
     b.seek(0)
     return b
+
+
+EPUB_TAILS = ["<object data='x'>", "<iframe src='x'>", "<noscript>", "<table><tr><td>", "<applet>", "<script>", "<style>"]
 
 
 def gen_epub_case(rng, wild):
@@ -520,7 +528,7 @@ def gen_epub_case(rng, wild):
         iid = f"it{i}"
         if kind == "ok":
             items.append((iid, f"c{i}.xhtml", "application/xhtml+xml"))
-            files[f"c{i}.xhtml"] = f"TOK{i + 1}"
+            files[f"c{i}.xhtml"] = f"TOK{i + 1}" + ("~" if (wild and rng.random() < 0.3) else "")
         elif kind == "image":
             items.append((iid, f"c{i}.png", "image/png"))
         elif kind == "missingfile":
